@@ -1,10 +1,96 @@
 /-
   C15 — POST processor returns the encoded fields for every split of the body.
-  (theorems are added below as they are proved)
+
+  Statements only; the proofs are in `Mhd.Proofs.PP*`.  The model (`Mhd.Model.PP*`) mirrors
+  src/microhttpd/postprocessor.c; `run n ctype chunks` is the complete life of a post processor:
+  `MHD_create_post_processor` with buffer size `n` for a request whose Content-Type is `ctype`,
+  one `MHD_post_process` call per element of `chunks`, `MHD_destroy_post_processor`.
+  `pp.evs` is the list of iterator calls, `pp.fault` an access outside an object.
+
+  `Delivers evs fields` (Mhd.Proofs.PPSpec): the calls deliver exactly `fields`, in order — per
+  field at least one call, every call with the field's key / file name / type / encoding,
+  offsets contiguous from 0, data concatenating to the value.
 -/
-import Mhd.Model.PP
+import Mhd.Proofs.PPUrl
 
 namespace Mhd.C15
 open Mhd.PP
+
+/-! ## application/x-www-form-urlencoded -/
+
+/-- Round trip for **every conforming rendering**: `fields` are lists of tokens (a literal byte
+    other than NUL `% & = CR LF` — `+` standing for a space — or `%XY` with two hex digits of either
+    case), keys non-empty and shorter than the key buffer (`n + 4` bytes); the text
+    `k1=v1&k2=v2…` may be followed by any number of CR/LF.  For **every** buffer size `n`, and
+    **every** split of the text into chunks (any number, empty ones included): the life of the post
+    processor ends with `MHD_YES`, no access leaves an object, and the iterator calls deliver exactly
+    the decoded fields in order (keys as C strings). -/
+theorem url_roundtrip_tokens (n : Nat) (fields : List FieldT) (nl : Bytes) (chunks : List Bytes)
+    (hok : ∀ f ∈ fields, f.Ok (n + Mhd.Gen.PP.bufferSlack)) (hnl : IsNl nl)
+    (hc : chunks.flatten = encF fields ++ nl) :
+    ∃ pp, run n Mhd.Gen.PP.encUrl chunks = some (pp, true) ∧ pp.fault = none ∧
+      Delivers pp.evs (fields.map fld) :=
+  url_roundtrip_tok n fields nl chunks hok hnl hc
+
+/-- … and every single `MHD_post_process` call on the way returns `MHD_YES`. -/
+theorem url_every_call_accepts (n : Nat) (fields : List FieldT) (nl : Bytes) (chunks : List Bytes)
+    (hok : ∀ f ∈ fields, f.Ok (n + Mhd.Gen.PP.bufferSlack)) (hnl : IsNl nl)
+    (hc : chunks.flatten = encF fields ++ nl)
+    (pre : List Bytes) (c : Bytes) (post : List Bytes) (hs : chunks = pre ++ c :: post) :
+    (feed (feedAll { isUrl := true, bufferSize := n + Mhd.Gen.PP.bufferSlack } pre) c).2 = true :=
+  feedAll_rets hok hnl chunks [] _ (by rw [List.append_nil, hc]; exact good_init n fields nl) pre c post hs
+
+/-- Round trip for the reference encoder `encodeUrl` (unreserved bytes literal, space as `+`,
+    everything else `%XX`): binary values, empty values, percent signs, `&`, `=`, CR, LF, NUL in
+    values are all covered; keys are non-empty C strings whose encoding fits the key buffer. -/
+theorem url_roundtrip (n : Nat) (fields : List (Bytes × Bytes)) (chunks : List Bytes)
+    (hk : ∀ kv ∈ fields, kv.1 ≠ [] ∧ (∀ c ∈ kv.1, c ≠ 0) ∧ (encStr kv.1).length < n + Mhd.Gen.PP.bufferSlack)
+    (hc : chunks.flatten = encodeUrl fields) :
+    ∃ pp, run n Mhd.Gen.PP.encUrl chunks = some (pp, true) ∧ pp.fault = none ∧
+      Delivers pp.evs (fields.map fun kv => (urlMeta kv.1, kv.2)) := by
+  have hok : ∀ f ∈ fields.map tokField, f.Ok (n + Mhd.Gen.PP.bufferSlack) := by
+    intro f hf
+    simp only [List.mem_map] at hf
+    obtain ⟨kv, hkv, rfl⟩ := hf
+    obtain ⟨h1, _, h3⟩ := hk kv hkv
+    refine ⟨?_, allOk_map_tokOf _, allOk_map_tokOf _, by simpa [tokField, rawOf_map_tokOf] using h3⟩
+    simpa [tokField] using h1
+  obtain ⟨pp, h1, h2, h3⟩ := url_roundtrip_tok n (fields.map tokField) [] chunks hok (by intro c h; cases h)
+    (by rw [hc, encodeUrl_eq]; simp)
+  refine ⟨pp, h1, h2, ?_⟩
+  have : (fields.map tokField).map fld = fields.map fun kv => (urlMeta kv.1, kv.2) := by
+    rw [List.map_map]
+    apply List.map_congr_left
+    intro kv hkv
+    simp [fld, tokField, decOf_map_tokOf, cstr_of_no_zero kv.1 (hk kv hkv).2.1]
+  rw [← this]; exact h3
+
+/-- Split independence: two arbitrary splits of the same well-formed text deliver the same fields. -/
+theorem url_split_independent (n : Nat) (fields : List FieldT) (nl : Bytes) (chunks₁ chunks₂ : List Bytes)
+    (hok : ∀ f ∈ fields, f.Ok (n + Mhd.Gen.PP.bufferSlack)) (hnl : IsNl nl)
+    (h₁ : chunks₁.flatten = encF fields ++ nl) (h₂ : chunks₂.flatten = chunks₁.flatten) :
+    ∃ pp₁ pp₂, run n Mhd.Gen.PP.encUrl chunks₁ = some (pp₁, true) ∧ run n Mhd.Gen.PP.encUrl chunks₂ = some (pp₂, true) ∧
+      Delivers pp₁.evs (fields.map fld) ∧ Delivers pp₂.evs (fields.map fld) := by
+  obtain ⟨p1, a1, _, a3⟩ := url_roundtrip_tok n fields nl chunks₁ hok hnl h₁
+  obtain ⟨p2, b1, _, b3⟩ := url_roundtrip_tok n fields nl chunks₂ hok hnl (h₂.trans h₁)
+  exact ⟨p1, p2, a1, b1, a3, b3⟩
+
+/-- Non-vacuity: two fields (`a A` with value `%&`, `b` with the empty value), rendered
+    `a+%41=%25%26&b=` and split inside an escape, inside a key, and with an empty chunk;
+    smallest legal buffer. -/
+example : ∃ pp, run 256 Mhd.Gen.PP.encUrl
+      [[0x61, 0x2B, 0x25, 0x34], [0x31, 0x3D, 0x25, 0x32, 0x35, 0x25, 0x32], [], [0x36, 0x26], [0x62, 0x3D]] = some (pp, true)
+    ∧ pp.fault = none ∧
+    Delivers pp.evs (List.map fld
+      [⟨[.lit 0x61, .lit 0x2B, .esc 0x34 0x31], [.esc 0x32 0x35, .esc 0x32 0x36]⟩, ⟨[.lit 0x62], []⟩]) :=
+  url_roundtrip_tokens 256
+    [⟨[.lit 0x61, .lit 0x2B, .esc 0x34 0x31], [.esc 0x32 0x35, .esc 0x32 0x36]⟩, ⟨[.lit 0x62], []⟩] [] _
+    (by decide) (by intro c h; cases h) (by decide)
+
+/-- Non-vacuity for the reference encoder: key `k y`, binary value `00 25 ff`; key `z`, empty value. -/
+example : ∃ pp, run 300 Mhd.Gen.PP.encUrl [encodeUrl [([0x6B, 0x20, 0x79], [0, 0x25, 0xff]), ([0x7A], [])]] = some (pp, true)
+    ∧ pp.fault = none ∧
+    Delivers pp.evs [(urlMeta [0x6B, 0x20, 0x79], [0, 0x25, 0xff]), (urlMeta [0x7A], [])] :=
+  url_roundtrip 300 [([0x6B, 0x20, 0x79], [0, 0x25, 0xff]), ([0x7A], [])] _ (by decide) (by simp)
 
 end Mhd.C15
